@@ -11,6 +11,7 @@ META = {
     "level": "Decides the structural clauses: name patterns are compiled as ^(?:a|b|...)$ (and (?!^(?:...)$) for whitelists) and applied with .match; every scanner that honours backslash escapes consumes them pairwise and none decides escaped-ness by looking one character back; in the ${...} arm of walk_dollar_expansion every return hands back the index after a closing brace; a filtered variable/function closes the output window at the start of its command and nothing past the NUL sentinel is written; functions are scanned with the brace as terminator and variables by the same quoting dispatch bash uses for dumps. Does NOT decide the scanner on concrete dumps (bash is the oracle there).",
     "note": "",
 }
+META["technique"] += "; " + 'generic pack G on the anchored files (optional-flag shift, closures outliving a loop iteration, single-pass iterables consumed twice, %-templates built from data, in-place writes to class-level / memoised objects, generators mutating what they yielded, memo keys that are projections)'
 MOD = "pkgcore.ebuild.filter_env"
 
 
